@@ -736,6 +736,60 @@ pub fn run(tier: &str) -> Run {
             }
         }
     }
+    // loaded documents edited through the API: every scalar field of every element gets a new value, every sequence one more
+    // entry (four integer value modes); the edited model is judged by the same oracle
+    {
+        let mut mdocs: Vec<(String, String)> = Vec::new();
+        for d in corpus::carriers(&g).into_iter().chain(corpus::rich_docs(&g)).chain(corpus::opt_docs(&g, 1)) {
+            mdocs.push((d.label.clone(), d.doc.text()));
+        }
+        let mres = par_map(
+            mdocs.len() * 4,
+            &|j| {
+                let vmode = (j % 4) as u8;
+                let (_, text) = &mdocs[j / 4];
+                let Loaded::Ok(mut f, log) = load(text, None, false) else { return RT::NotAccepted };
+                if !log.is_empty() {
+                    return RT::NotAccepted;
+                }
+                crate::gen_builders::set_mode(vmode);
+                let mut k = 8000u32;
+                let r = vcore::explore::guard(std::panic::AssertUnwindSafe(|| {
+                    crate::gen_builders::mutate_Project(&mut f.project, &mut k);
+                }));
+                crate::gen_builders::set_mode(0);
+                match r {
+                    Err(p) => RT::Viol { oracle: "panic-build", what: p },
+                    Ok(()) => roundtrip_model(&f),
+                }
+            },
+            &|j| {
+                println!("MACHINERY-ERROR: C01 edited-document case {j} hangs");
+                std::process::exit(2);
+            },
+        );
+        for (j, r) in mres.into_iter().enumerate() {
+            run.evaluations += 1;
+            run.transitions += 4;
+            let label = format!("{} with every field edited (ints {})", mdocs[j / 4].0, ["small", "negative/large", "negative/large, hex builders", "min/max"][j % 4]);
+            let h = fnv1a(label.as_bytes());
+            run.states.insert(h);
+            match r {
+                RT::Ok { .. } => {
+                    run.nontrivial.insert(h);
+                    run.outcome("edited-document: stable");
+                }
+                RT::NotAccepted => run.outcome("edited-document: not applicable"),
+                RT::Viol { oracle, what } => {
+                    run.outcome("edited-document: violation");
+                    let tag = mdocs[j / 4].0.clone();
+                    let key = if oracle.starts_with("panic") { format!("C01/{oracle} {}", vcore::explore::panic_key(&what)) } else { format!("C01/{oracle}/edited-document:{tag}") };
+                    run.violation(key, format!("{label}: {what}"), json!({"edited_document": {"text": mdocs[j / 4].1, "mode": j % 4}}));
+                }
+            }
+        }
+        run.require("edited-document: stable", 500);
+    }
     // operation histories: every sequence of <= depth model operations from every start file
     {
         let w = crate::hist::world(&g);
@@ -906,12 +960,24 @@ pub fn run(tier: &str) -> Run {
     run.require("cm: stable", 1000);
     run.require("val: stable", 1000);
     run.require("ifdata: stable", 50);
-    run.rule = "documents = grammar carriers + every optional slot (once, twice, pairs) + every enum item, each also with CRLF; whitespace (7 kinds) and comments (7 kinds) at every gap of every carrier and of rich documents, all pairs on selected documents; every value class at every scalar parameter (ints per width, 28 float notations, all strings of <= k escape units, identifier shapes); IF_DATA x {with/without A2ML} x {built-in spec} x CRLF; 7 whitespace and 10 comment shapes at every gap inside 10 IF_DATA payloads; the MODULE content of every carrier / optional-slot / rich document through load_fragment (equal to the module of the whole document, stable when placed in a new file); every such document written with a banner to a file and loaded from it; operation histories: every sequence of <= 2 (thorough 3) operations over {push x 8 kinds, remove first / last, field edit, sort, sort_new_items, cleanup, ifdata_cleanup, merge_includes, merge_modules with 4 partners (other documents, identical twin, same names with other content), reload} from 5 start files, the resulting model judged by the same oracle. Oracle: t0 -load-> M0 -write-> t1 -load-> M1 -write-> t2: reload ok, M1 == M0, t2 == t1 bytewise (3rd cycle classifies drift). distinct = distinct input text; non-trivial = accepted by the loader".into();
+    run.rule = "documents = grammar carriers + every optional slot (once, twice, pairs) + every enum item, each also with CRLF; whitespace (7 kinds) and comments (7 kinds) at every gap of every carrier and of rich documents, all pairs on selected documents; every value class at every scalar parameter (ints per width, 28 float notations, all strings of <= k escape units, identifier shapes); IF_DATA x {with/without A2ML} x {built-in spec} x CRLF; 7 whitespace and 10 comment shapes at every gap inside 10 IF_DATA payloads; the MODULE content of every carrier / optional-slot / rich document through load_fragment (equal to the module of the whole document, stable when placed in a new file); every such document written with a banner to a file and loaded from it; every carrier / optional-slot / rich document loaded and then edited through the API in every scalar field of every element (4 integer value modes); operation histories: every sequence of <= 2 (thorough 3) operations over {push x 8 kinds, remove first / last, field edit, sort, sort_new_items, cleanup, ifdata_cleanup, merge_includes, merge_modules with 4 partners (other documents, identical twin, same names with other content), reload} from 5 start files, the resulting model judged by the same oracle. Oracle: t0 -load-> M0 -write-> t1 -load-> M1 -write-> t2: reload ok, M1 == M0, t2 == t1 bytewise (3rd cycle classifies drift). distinct = distinct input text; non-trivial = accepted by the loader".into();
     run.assumptions = vec!["inputs the loader rejects are outside the quantifier and only counted".into()];
     run
 }
 
 pub fn replay(v: &Value) -> Result<String, String> {
+    if let Some(ed) = v.get("edited_document") {
+        let text = ed["text"].as_str().ok_or("no text")?;
+        let Loaded::Ok(mut f, _) = load(text, None, false) else { return Ok("not loadable".into()) };
+        crate::gen_builders::set_mode(ed["mode"].as_u64().unwrap_or(0) as u8);
+        let mut k = 8000u32;
+        crate::gen_builders::mutate_Project(&mut f.project, &mut k);
+        crate::gen_builders::set_mode(0);
+        return match roundtrip_model(&f) {
+            RT::Viol { oracle, what } => Err(format!("{oracle}: {what}")),
+            _ => Ok("stable".into()),
+        };
+    }
     if let Some(oh) = v.get("op_history") {
         let g = corpus::grammar();
         let w = crate::hist::world(&g);
